@@ -1,6 +1,7 @@
 import GlueVerif.Lemmas.C09Dispatch
 import GlueVerif.Lemmas.C09Rect
 import GlueVerif.Lemmas.C09Order
+import GlueVerif.Lemmas.C09Scale
 /-!
 # C09 — a drawn region becomes a selection of exactly the points the region contains
 
@@ -585,6 +586,57 @@ example :
     inScope (.range .y (1 / 2) 3) (some [1, 0]) (some [9, 3, 4]) false none ⟨.lab 1, .lab 9⟩ = true ∧
     inScope (.rect (1 / 2) (5 / 2) (-3 / 4) (3 / 4) (3 / 5) (4 / 5)) (some [0, 1, 2, 3]) none false none
       ⟨.lab 2, .num (some (7 / 8))⟩ = true := by
+  decide +kernel
+
+/-! ## Units and zero point of a numeric axis -/
+
+/-- **The selection does not depend on the units or the zero point of a numeric axis.**  Rescale one
+numeric axis `ax` (`axisCats ax xc yc = none`: the axis is not categorical) by any positive factor
+`a` and any offset `b` — region (`Roi.rescale`: range bounds, rectangle / ellipse centre and extent,
+polygon vertices) and data (`Elem.rescale`; NaN and labels untouched) alike.  Then, for every region
+class closed under this (`Roi.axisAligned`: ranges, polygons, categorical regions, rectangles and
+ellipses with `θ ≡ 0 mod π`; a circle on a rescaled axis *is* such an ellipse), every kind of the
+other axis (categorical with any list, or numeric) and every element:
+
+* the Spec is unchanged: the plotted position lies in the rescaled region iff it did
+  (`specSelected`), and lies on its boundary iff it did (`specOnBoundary`) — in particular matplotlib's
+  crossing rule is literally invariant (`Lemmas.crossH_rescale`);
+* the model's mask — `roi_to_subset_state` + `to_mask` as coded: inclusive `RangeSubsetState`, the
+  `polygon_line_intersections` segments with their exact `sort`/`unique`, the bounding-box prefilter
+  — is unchanged, inside the scope of `roi_selection` and off the boundary.
+
+So a flux axis in units of 1e-9 or a Julian-date axis around 2.4e6 must select exactly what the same
+picture selects in units of order one: any absolute (`atol`) or magnitude-relative (`rtol·|v|`)
+tolerance in the real code violates this at some point of the magnitude / offset ladder the `sel` /
+`pli` / `mpl` families run (seeded defect class C09b).  The driver also uses the statement to evaluate
+the boundary band of inexact polygon paths in coordinates normalised to the region's own extent. -/
+theorem selection_scale_equivariant (ax : Ori) (a b : Rat) (ha : 0 < a) (r : Roi)
+    (hr : r.axisAligned = true) (xc yc : Option (List Int)) (hnum : axisCats ax xc yc = none)
+    (usePre : Bool) (e : Elem) :
+    specSelected (r.rescale ax a b) xc yc none (e.rescale ax a b) = specSelected r xc yc none e ∧
+    specOnBoundary (r.rescale ax a b) xc yc none (e.rescale ax a b) = specOnBoundary r xc yc none e ∧
+    (inScope r xc yc usePre none e = true → specOnBoundary r xc yc none e = false →
+      mask none (roiToState (r.rescale ax a b) xc yc usePre) (e.rescale ax a b) =
+        mask none (roiToState r xc yc usePre) e) := by
+  have h1 := specSelected_rescale ax ha b r hr xc yc hnum e
+  have h2 := specOnBoundary_rescale ax ha b r hr xc yc hnum e
+  refine ⟨h1, h2, fun hs hb => ?_⟩
+  rw [roi_selection _ _ _ _ _ _ (by rw [inScope_rescale ax ha b]; exact hs) (by rw [h2]; exact hb),
+    roi_selection _ _ _ _ _ _ hs hb, h1]
+
+/-- Julian dates: the diamond `|u| + |k - 2| / 2 < 1` of half extent 1/4 day around JD 2459000.5 on
+(categorical x, numeric y) is the unit diamond rescaled by `a = 1/4`, `b = 2459000.5`; the element
+(category 1, JD 2459000.5625) is the element (category 1, u = 1/4).  Non-trivial instance: the element
+is selected, in scope and off the boundary. -/
+example :
+    let r : Roi := .poly [⟨2, 1⟩, ⟨4, 0⟩, ⟨2, -1⟩, ⟨0, 0⟩]
+    let e : Elem := ⟨.lab 3, .num (some (1 / 4))⟩
+    let xc := some [1, 3, 4, 6, 8]
+    r.axisAligned = true ∧ axisCats .y xc none = none ∧ inScope r xc none false none e = true ∧
+    specOnBoundary r xc none none e = false ∧ specSelected r xc none none e = true ∧
+    specSelected (r.rescale .y (1 / 4) (4918001 / 2)) xc none none ⟨.lab 3, .num (some (39344009 / 16))⟩ = true ∧
+    mask none (roiToState (r.rescale .y (1 / 4) (4918001 / 2)) xc none false)
+      (e.rescale .y (1 / 4) (4918001 / 2)) = true := by
   decide +kernel
 
 /-! ## Defect F9 (repaired): rotated rectangle on a categorical axis -/
